@@ -41,7 +41,7 @@ func (c Case) String() string {
 // Points at which a goroutine is parked. Except for the two "empty" points the queue holds
 // a = key 1 @ 10 ms (the head the loop is working on) and c = key 3 @ 20 ms.
 var Points = []string{
-	"loop.peeked", "loop.beforeArm", "loop.parked", "loop.reset", "loop.fired", "loop.firedNow",
+	"loop.peeked", "loop.beforeArm", "loop.beforeTimer", "loop.parked", "loop.reset", "loop.fired", "loop.firedNow",
 	"execute.popped", "cb", "loop.peekedNone", "loop.sawEmpty", "process.resetSent", "process.tokenTaken",
 }
 
@@ -134,7 +134,7 @@ func (w *World) reach(point string) (*parkReq, bool) {
 	var req *parkReq
 	var trigger func()
 	switch point {
-	case "loop.peeked", "loop.beforeArm", "loop.parked":
+	case "loop.peeked", "loop.beforeArm", "loop.beforeTimer", "loop.parked":
 		w.enqueue(3, 20*ms)
 		w.settleOr("prefix")
 		req = w.armPark(point, keyIs(1))
@@ -356,7 +356,6 @@ func (w *World) runRandom(c Case) {
 	if c.Reenter {
 		w.reenter = r.Fork()
 	}
-	w.useGate = true
 	lists := make([][]rop, c.Workers)
 	for i := range lists {
 		lists[i] = genOps(r.Fork(), c.Ops, c.Close && i == 0)
